@@ -33,6 +33,7 @@ type fixture struct {
 	// argument LISTS that are shared too (not rebuilt per call): a batch that contains entries the
 	// Go layer refuses up front (a 47-byte signature, an identity public key) next to valid ones
 	batchPks           []crypto.PublicKey
+	longA, longB       []crypto.PublicKey // 33 entries each, alternating pk1 / pk2 (different sums)
 	batchSigs          []crypto.Signature
 	Hmid               hash.Hasher // a third shared KMAC128 hasher that is in the MIDDLE of a stream (Write, no SumHash/Reset yet)
 	Hused              hash.Hasher // a second shared KMAC128 hasher that was used for streaming before (Write, SumHash, Reset)
@@ -141,6 +142,13 @@ func (r *recipe) fresh() *fixture {
 	f.sigP, f.sigS = sigs[6], sigs[7]
 	f.batchPks = []crypto.PublicKey{f.pk1, crypto.IdentityBLSPublicKey(), f.pk2, f.pk1}
 	f.batchSigs = []crypto.Signature{f.s1, f.s1, f.s2, f.s1[:47]}
+	for i := 0; i < 33; i++ {
+		if i%2 == 0 {
+			f.longA, f.longB = append(f.longA, f.pk1), append(f.longB, f.pk2)
+		} else {
+			f.longA, f.longB = append(f.longA, f.pk2), append(f.longB, f.pk1)
+		}
+	}
 	add := func(n string, v any) { f.names = append(f.names, n); f.shared = append(f.shared, v) }
 	add("kmac-hasher", f.H)
 	add("kmac-hasher-used-before", f.Hused)
@@ -157,6 +165,8 @@ func (r *recipe) fresh() *fixture {
 	add("bls-pk1-jacobian", f.pk1j)
 	add("batch-list-of-public-keys", f.batchPks)
 	add("batch-list-of-signatures", f.batchSigs)
+	add("long-key-list-A", f.longA)
+	add("long-key-list-B", f.longB)
 	add("message-frame(m1|m2|guard)", f.msgFrame)
 	add("signature-frame(8 signatures|guard)", f.sigFrame)
 	return f
@@ -272,6 +282,22 @@ var ops = []opDef{
 	{"KMAC[used before].ComputeHash(m2)", func(f *fixture) string { return fmt.Sprintf("%x", []byte(f.Hused.ComputeHash(f.m2))) }},
 	{"AggregateBLSPublicKeys([pk1,pk2]).Encode", func(f *fixture) string {
 		k, err := crypto.AggregateBLSPublicKeys([]crypto.PublicKey{f.pk1, f.pk2})
+		if err != nil {
+			return "err:" + err.Error()
+		}
+		return fmt.Sprintf("%x", k.Encode())
+	}},
+	// LONG key lists (33 entries, two lists with different sums): list handling that changes with the
+	// length (pre-sized or pooled scratch space for many keys) is shared between concurrent calls
+	{"AggregateBLSPublicKeys(33 keys: pk1,pk2,pk1,...).Encode", func(f *fixture) string {
+		k, err := crypto.AggregateBLSPublicKeys(f.longA)
+		if err != nil {
+			return "err:" + err.Error()
+		}
+		return fmt.Sprintf("%x", k.Encode())
+	}},
+	{"AggregateBLSPublicKeys(33 keys: pk2,pk1,pk2,...).Encode", func(f *fixture) string {
+		k, err := crypto.AggregateBLSPublicKeys(f.longB)
 		if err != nil {
 			return "err:" + err.Error()
 		}
@@ -729,7 +755,7 @@ func main() {
 	run.Set("states", run.Get("executions"))
 	run.Set("preemption_bound", map[string]int{"two_threads": b2, "three_threads": b3})
 	run.Set("max_schedules_per_program", map[string]int{"two_threads": m2, "three_threads": m3})
-	run.Set("rule", "program = 2 threads (thorough also 3 with a ComputeHash) running one operation each from the 31-operation alphabet (incl. ComputeHash and Sign on a hasher that is in the middle of a stream) (incl. a batch verification and an aggregation over SHARED argument lists that hold a 47-byte signature and an identity key; the lists themselves are snapshotted) (incl. ComputeHash on a hasher that was used for streaming before it was shared) (list-taking operations in two variants with different inputs and results) (KMAC ComputeHash x2 on ONE shared hasher, BLS Sign/Verify/VerifyPOP/GeneratePOP/SPOCKVerify/aggregate/many-message/batch verification sharing keys, that hasher and the package-level PoP hasher, ECDSA Sign/Verify on both curves with per-thread hashers): all unordered pairs, plus ordered pairs (x, y) as 'one call of x overlapped by two successive calls of y' (quick: y of the same function family as x or a ComputeHash on a shared hasher; thorough: all ordered pairs) (the point between the two calls is a free switch point); every execution starts from FRESH shared objects (new hasher, public keys decoded from bytes and never used before), so first use / lazy initialisation is inside the explored schedules; for each program ALL schedules within the preemption bound over statement-level scheduling points in hash/kmac.go, bls.go, bls_multisig.go, spock.go, ecdsa.go; monitors: results equal the solo results, and after EVERY scheduling point a deep reflective snapshot of all shared objects and of the two frames that hold every message and signature (sub-slices with spare capacity, guard bytes) equals the initial one. executions = complete schedules; distinct_nontrivial = programs.")
+	run.Set("rule", "program = 2 threads (thorough also 3 with a ComputeHash) running one operation each from the 35-operation alphabet (incl. public-key aggregation over two 33-entry key lists) (incl. ComputeHash and Sign on a hasher that is in the middle of a stream) (incl. a batch verification and an aggregation over SHARED argument lists that hold a 47-byte signature and an identity key; the lists themselves are snapshotted) (incl. ComputeHash on a hasher that was used for streaming before it was shared) (list-taking operations in two variants with different inputs and results) (KMAC ComputeHash x2 on ONE shared hasher, BLS Sign/Verify/VerifyPOP/GeneratePOP/SPOCKVerify/aggregate/many-message/batch verification sharing keys, that hasher and the package-level PoP hasher, ECDSA Sign/Verify on both curves with per-thread hashers): all unordered pairs, plus ordered pairs (x, y) as 'one call of x overlapped by two successive calls of y' (quick: y of the same function family as x or a ComputeHash on a shared hasher; thorough: all ordered pairs) (the point between the two calls is a free switch point); every execution starts from FRESH shared objects (new hasher, public keys decoded from bytes and never used before), so first use / lazy initialisation is inside the explored schedules; for each program ALL schedules within the preemption bound over statement-level scheduling points in hash/kmac.go, bls.go, bls_multisig.go, spock.go, ecdsa.go; monitors: results equal the solo results, and after EVERY scheduling point a deep reflective snapshot of all shared objects and of the two frames that hold every message and signature (sub-slices with spare capacity, guard bytes) equals the initial one. executions = complete schedules; distinct_nontrivial = programs.")
 	run.Assume("private keys have their public key computed before the threads start (lazy public-key caching of private keys is not part of the listed operations)", "interleavings at statement granularity of the instrumented Go files, sequentially consistent; calls into x/crypto, the standard library and C are atomic steps (data races inside them are invisible to this technique)", "ECDSA Sign is randomised: its output is verified, not compared")
 	run.Finish()
 }
